@@ -38,12 +38,15 @@ VARIABLES
   reqMu, sendClosed,
   pc, tmp, probe, got, fst,
   bud, ncancel, nhdr, ntrl,
-  panicked, lviol
+  panicked, lviol,
+  ev           \* the API event the last step emitted (NoEv for internal steps); binds traces, hidden by a VIEW otherwise
 
 lvars == <<req, reqClosed, resp, respClosed, svrDone, svrExit, sst, shdr, strl, smu,
            cst, clast, chdr, ctrl, respMu, reqMu, sendClosed, pc, tmp, probe, got, fst,
            bud, ncancel, nhdr, ntrl, panicked, lviol>>
-allvars == <<vars, lvars>>
+allvars == <<vars, lvars, ev>>
+\* exhaustive runs use this view: ev does not influence any later step
+ViewNoEv == <<vars, lvars>>
 
 Threads == {"cs", "cs2", "cr", "h"}
 
@@ -67,6 +70,16 @@ RLib == [k |-> "err", code |-> 13, st |-> 0, raw |-> FALSE]   \* library-made In
 RMisuse == [k |-> "err", code |-> 2, st |-> 0, raw |-> TRUE]  \* "send closed"
 StRec(s) == [st |-> s, code |-> CodeOf(s), ctxerr |-> FALSE]
 
+NoEv == [n |-> "", a |-> 0, k |-> "", cat |-> "", m |-> 0, v |-> <<>>]
+\* category of an error result: context status, handler's status, library-made, misuse
+Cat(r) == IF r.k # "err" THEN ""
+          ELSE IF r.st > 0 THEN "hst"
+          ELSE IF r.code = 13 THEN "lib"
+          ELSE IF r.code = 2 /\ r.raw THEN "misuse"
+          ELSE "ctx"
+Emit(n, a, r, m, v) == ev' = [n |-> n, a |-> a, k |-> r.k, cat |-> Cat(r), m |-> m, v |-> v]
+Quiet == ev' = NoEv
+
 KindC == IF ReqStreamC /\ RespStreamC THEN "bidi"
          ELSE IF ReqStreamC THEN "cstream"
          ELSE IF RespStreamC THEN "sstream" ELSE "unary"
@@ -87,6 +100,7 @@ LInit ==
   /\ bud = [t \in Threads |-> CASE t = "cs" -> NS [] t = "cs2" -> 1 [] t = "cr" -> NR [] OTHER -> NH]
   /\ ncancel = 0 /\ nhdr = 0 /\ ntrl = 0
   /\ panicked = FALSE /\ lviol = {}
+  /\ ev = NoEv
 
 \* the handler is running from the start (HStart is the first L0 event)
 Init == LInit
@@ -103,7 +117,7 @@ StartSend ==
   /\ bud' = [bud EXCEPT !["cs"] = @ - 1]
   /\ Goto("cs", "s1")
   /\ Ev_CSendCall(cSendStarted + 1)
-  /\ NoViol
+  /\ NoViol /\ Emit("CSendCall", cSendStarted + 1, RNil, 0, <<>>)
   /\ UNCHANGED <<req, reqClosed, resp, respClosed, svrDone, svrExit, sst, shdr, strl, smu,
                  cst, clast, chdr, ctrl, respMu, reqMu, sendClosed, tmp, probe, got, fst,
                  ncancel, nhdr, ntrl, panicked>>
@@ -114,9 +128,9 @@ SendLock ==
   /\ IF sendClosed
        THEN /\ Goto("cs", "idle") /\ UNCHANGED reqMu
             /\ Ev_CSendRet(cSendStarted, RMisuse)
-            /\ Viol(Chk_CSendRet(cSendStarted, RMisuse))
+            /\ Viol(Chk_CSendRet(cSendStarted, RMisuse)) /\ Emit("CSendRet", cSendStarted, RMisuse, 0, <<>>)
        ELSE /\ Goto("cs", "s2") /\ reqMu' = "cs"
-            /\ UNCHANGED vars /\ NoViol
+            /\ UNCHANGED vars /\ NoViol /\ Quiet
   /\ UNCHANGED <<req, reqClosed, resp, respClosed, svrDone, svrExit, sst, shdr, strl, smu,
                  cst, clast, chdr, ctrl, respMu, sendClosed, tmp, probe, got, fst,
                  bud, ncancel, nhdr, ntrl, panicked>>
@@ -128,14 +142,14 @@ SendSelect ==
         /\ req' = Append(req, D(cSendStarted))
         /\ panicked' = (panicked \/ reqClosed)
         /\ Goto("cs", "s3")
-        /\ UNCHANGED <<reqMu, vars>> /\ NoViol
+        /\ UNCHANGED <<reqMu, vars>> /\ NoViol /\ Quiet
      \/ /\ CDone                                \* case <-ctx.Done()
         /\ Goto("cs", "s3")
-        /\ UNCHANGED <<req, panicked, reqMu, vars>> /\ NoViol
+        /\ UNCHANGED <<req, panicked, reqMu, vars>> /\ NoViol /\ Quiet
      \/ /\ svrDone                              \* case <-remote: return io.EOF
         /\ Goto("cs", "idle") /\ reqMu' = ""
         /\ Ev_CSendRet(cSendStarted, REof)
-        /\ Viol(Chk_CSendRet(cSendStarted, REof))
+        /\ Viol(Chk_CSendRet(cSendStarted, REof)) /\ Emit("CSendRet", cSendStarted, REof, 0, <<>>)
         /\ UNCHANGED <<req, panicked>>
   /\ UNCHANGED <<reqClosed, resp, respClosed, svrDone, svrExit, sst, shdr, strl, smu,
                  cst, clast, chdr, ctrl, respMu, sendClosed, tmp, probe, got, fst,
@@ -147,7 +161,7 @@ SendRet ==
   /\ Goto("cs", "idle") /\ reqMu' = ""
   /\ LET r == IF CDone THEN RCtx(TRUE) ELSE RNil IN
        /\ Ev_CSendRet(cSendStarted, r)
-       /\ Viol(Chk_CSendRet(cSendStarted, r))
+       /\ Viol(Chk_CSendRet(cSendStarted, r)) /\ Emit("CSendRet", cSendStarted, r, 0, <<>>)
   /\ UNCHANGED <<req, reqClosed, resp, respClosed, svrDone, svrExit, sst, shdr, strl, smu,
                  cst, clast, chdr, ctrl, respMu, sendClosed, tmp, probe, got, fst,
                  bud, ncancel, nhdr, ntrl, panicked>>
@@ -157,7 +171,7 @@ StartClose(t) ==
   /\ t \in Closers /\ pc[t] = "idle" /\ bud[t] > 0
   /\ bud' = [bud EXCEPT ![t] = @ - 1]
   /\ Goto(t, "c1")
-  /\ Ev_CCloseSendCall /\ NoViol
+  /\ Ev_CCloseSendCall /\ NoViol /\ Emit("CCloseSendCall", 0, RNil, 0, <<>>)
   /\ UNCHANGED <<req, reqClosed, resp, respClosed, svrDone, svrExit, sst, shdr, strl, smu,
                  cst, clast, chdr, ctrl, respMu, reqMu, sendClosed, tmp, probe, got, fst,
                  ncancel, nhdr, ntrl, panicked>>
@@ -168,7 +182,7 @@ CloseDo(t) ==
   /\ IF sendClosed THEN UNCHANGED <<reqClosed, sendClosed, panicked>>
      ELSE /\ reqClosed' = TRUE /\ sendClosed' = TRUE
           /\ panicked' = (panicked \/ reqClosed)
-  /\ UNCHANGED vars /\ NoViol
+  /\ UNCHANGED vars /\ NoViol /\ Emit("CCloseSendRet", 0, RNil, 0, <<>>)
   /\ UNCHANGED <<req, resp, respClosed, svrDone, svrExit, sst, shdr, strl, smu,
                  cst, clast, chdr, ctrl, respMu, reqMu, tmp, probe, got, fst,
                  bud, ncancel, nhdr, ntrl>>
@@ -182,7 +196,7 @@ StartHRecv ==
   /\ HRunning /\ bud["h"] > 0
   /\ bud' = [bud EXCEPT !["h"] = @ - 1]
   /\ Goto("h", "hr1")
-  /\ Ev_HRecvCall /\ NoViol
+  /\ Ev_HRecvCall /\ NoViol /\ Emit("HRecvCall", 0, RNil, 0, <<>>)
   /\ UNCHANGED <<req, reqClosed, resp, respClosed, svrDone, svrExit, sst, shdr, strl, smu,
                  cst, clast, chdr, ctrl, respMu, reqMu, sendClosed, tmp, probe, got, fst,
                  ncancel, nhdr, ntrl, panicked>>
@@ -192,13 +206,13 @@ HRecvSelect ==
   /\ pc["h"] = "hr1"
   /\ \/ /\ req # <<>>
         /\ tmp' = [tmp EXCEPT !["h"] = Head(req)] /\ req' = Tail(req)
-        /\ Goto("h", "hr2") /\ UNCHANGED vars /\ NoViol
+        /\ Goto("h", "hr2") /\ UNCHANGED vars /\ NoViol /\ Quiet
      \/ /\ req = <<>> /\ reqClosed
         /\ tmp' = [tmp EXCEPT !["h"] = Closed] /\ UNCHANGED req
-        /\ Goto("h", "hr2") /\ UNCHANGED vars /\ NoViol
+        /\ Goto("h", "hr2") /\ UNCHANGED vars /\ NoViol /\ Quiet
      \/ /\ SDone
         /\ Goto("h", "idle") /\ UNCHANGED <<req, tmp>>
-        /\ Ev_HRecvRet(RCtx(TRUE), 0) /\ Viol(Chk_HRecvRet(RCtx(TRUE), 0))
+        /\ Ev_HRecvRet(RCtx(TRUE), 0) /\ Viol(Chk_HRecvRet(RCtx(TRUE), 0)) /\ Emit("HRecvRet", 0, RCtx(TRUE), 0, <<>>)
   /\ UNCHANGED <<reqClosed, resp, respClosed, svrDone, svrExit, sst, shdr, strl, smu,
                  cst, clast, chdr, ctrl, respMu, reqMu, sendClosed, probe, got, fst,
                  bud, ncancel, nhdr, ntrl, panicked>>
@@ -211,7 +225,7 @@ HRecvCheck ==
   /\ LET f == tmp["h"]
          r == IF SDone THEN RCtx(TRUE) ELSE IF f.t = "X" THEN REof ELSE RNil
          m == IF r.k = "nil" THEN f.v ELSE 0 IN
-       /\ Ev_HRecvRet(r, m) /\ Viol(Chk_HRecvRet(r, m))
+       /\ Ev_HRecvRet(r, m) /\ Viol(Chk_HRecvRet(r, m)) /\ Emit("HRecvRet", 0, r, m, <<>>)
   /\ UNCHANGED <<req, reqClosed, resp, respClosed, svrDone, svrExit, sst, shdr, strl, smu,
                  cst, clast, chdr, ctrl, respMu, reqMu, sendClosed, probe, got, fst,
                  bud, ncancel, nhdr, ntrl, panicked>>
@@ -221,7 +235,7 @@ StartHSend ==
   /\ HRunning /\ bud["h"] > 0
   /\ bud' = [bud EXCEPT !["h"] = @ - 1]
   /\ Goto("h", "hs1")
-  /\ Ev_HSendCall(hSendStarted + 1) /\ NoViol
+  /\ Ev_HSendCall(hSendStarted + 1) /\ NoViol /\ Emit("HSendCall", hSendStarted + 1, RNil, 0, <<>>)
   /\ UNCHANGED <<req, reqClosed, resp, respClosed, svrDone, svrExit, sst, shdr, strl, smu,
                  cst, clast, chdr, ctrl, respMu, reqMu, sendClosed, tmp, probe, got, fst,
                  ncancel, nhdr, ntrl, panicked>>
@@ -231,11 +245,11 @@ HSendLock ==
   /\ pc["h"] = "hs1" /\ smu = ""
   /\ IF SDone \/ sst = "C"
        THEN /\ Goto("h", "idle") /\ UNCHANGED <<smu, sst>>
-            /\ Ev_HSendRet(hSendStarted, REof) /\ Viol(Chk_HSendRet(hSendStarted, REof))
+            /\ Ev_HSendRet(hSendStarted, REof) /\ Viol(Chk_HSendRet(hSendStarted, REof)) /\ Emit("HSendRet", hSendStarted, REof, 0, <<>>)
        ELSE /\ smu' = "h"
             /\ IF sst = "H" /\ shdr # <<>> THEN Goto("h", "hs3") /\ UNCHANGED sst
                ELSE Goto("h", "hs5") /\ sst' = "M"
-            /\ UNCHANGED vars /\ NoViol
+            /\ UNCHANGED vars /\ NoViol /\ Quiet
   /\ UNCHANGED <<req, reqClosed, resp, respClosed, svrDone, svrExit, shdr, strl,
                  cst, clast, chdr, ctrl, respMu, reqMu, sendClosed, tmp, probe, got, fst,
                  bud, ncancel, nhdr, ntrl, panicked>>
@@ -248,7 +262,7 @@ HdrSelect(t, from, to) ==
         /\ panicked' = (panicked \/ respClosed)
      \/ /\ SDone /\ UNCHANGED <<resp, panicked>>
   /\ Goto(t, to)
-  /\ UNCHANGED vars /\ NoViol
+  /\ UNCHANGED vars /\ NoViol /\ Quiet
   /\ UNCHANGED <<req, reqClosed, respClosed, svrDone, svrExit, sst, shdr, strl, smu,
                  cst, clast, chdr, ctrl, respMu, reqMu, sendClosed, tmp, probe, got, fst,
                  bud, ncancel, nhdr, ntrl>>
@@ -260,9 +274,9 @@ HSendHdrRet ==
   /\ pc["h"] = "hs4"
   /\ IF SDone
        THEN /\ Goto("h", "idle") /\ smu' = "" /\ UNCHANGED <<shdr, sst>>
-            /\ Ev_HSendRet(hSendStarted, RCtx(TRUE)) /\ Viol(Chk_HSendRet(hSendStarted, RCtx(TRUE)))
+            /\ Ev_HSendRet(hSendStarted, RCtx(TRUE)) /\ Viol(Chk_HSendRet(hSendStarted, RCtx(TRUE))) /\ Emit("HSendRet", hSendStarted, RCtx(TRUE), 0, <<>>)
        ELSE /\ Goto("h", "hs5") /\ shdr' = <<>> /\ sst' = "M" /\ UNCHANGED smu
-            /\ UNCHANGED vars /\ NoViol
+            /\ UNCHANGED vars /\ NoViol /\ Quiet
   /\ UNCHANGED <<req, reqClosed, resp, respClosed, svrDone, svrExit, strl,
                  cst, clast, chdr, ctrl, respMu, reqMu, sendClosed, tmp, probe, got, fst,
                  bud, ncancel, nhdr, ntrl, panicked>>
@@ -274,7 +288,7 @@ HSendDataSelect ==
         /\ panicked' = (panicked \/ respClosed)
      \/ /\ SDone /\ UNCHANGED <<resp, panicked>>
   /\ Goto("h", "hs6")
-  /\ UNCHANGED vars /\ NoViol
+  /\ UNCHANGED vars /\ NoViol /\ Quiet
   /\ UNCHANGED <<req, reqClosed, respClosed, svrDone, svrExit, sst, shdr, strl, smu,
                  cst, clast, chdr, ctrl, respMu, reqMu, sendClosed, tmp, probe, got, fst,
                  bud, ncancel, nhdr, ntrl>>
@@ -283,7 +297,7 @@ HSendRet ==
   /\ pc["h"] = "hs6"
   /\ Goto("h", "idle") /\ smu' = ""
   /\ LET r == IF SDone THEN RCtx(TRUE) ELSE RNil IN
-       Ev_HSendRet(hSendStarted, r) /\ Viol(Chk_HSendRet(hSendStarted, r))
+       Ev_HSendRet(hSendStarted, r) /\ Viol(Chk_HSendRet(hSendStarted, r)) /\ Emit("HSendRet", hSendStarted, r, 0, <<>>)
   /\ UNCHANGED <<req, reqClosed, resp, respClosed, svrDone, svrExit, sst, shdr, strl,
                  cst, clast, chdr, ctrl, respMu, reqMu, sendClosed, tmp, probe, got, fst,
                  bud, ncancel, nhdr, ntrl, panicked>>
@@ -293,7 +307,7 @@ StartSetHeader ==
   /\ HRunning /\ bud["h"] > 0 /\ nhdr < MaxHdr
   /\ bud' = [bud EXCEPT !["h"] = @ - 1] /\ nhdr' = nhdr + 1
   /\ Goto("h", "sh1")
-  /\ Ev_HSetHeaderCall(nhdr + 1) /\ NoViol
+  /\ Ev_HSetHeaderCall(nhdr + 1) /\ NoViol /\ Emit("HSetHeaderCall", nhdr + 1, RNil, 0, <<>>)
   /\ UNCHANGED <<req, reqClosed, resp, respClosed, svrDone, svrExit, sst, shdr, strl, smu,
                  cst, clast, chdr, ctrl, respMu, reqMu, sendClosed, tmp, probe, got, fst,
                  ncancel, ntrl, panicked>>
@@ -303,7 +317,7 @@ SetHeaderDo ==
   /\ Goto("h", "idle")
   /\ LET ok == sst = "H" IN
        /\ shdr' = IF ok THEN Append(shdr, nhdr) ELSE shdr
-       /\ Ev_HSetHeaderRet(nhdr, ok) /\ Viol(Chk_HSetHeaderRet(nhdr, ok))
+       /\ Ev_HSetHeaderRet(nhdr, ok) /\ Viol(Chk_HSetHeaderRet(nhdr, ok)) /\ Emit("HSetHeaderRet", nhdr, IF ok THEN RNil ELSE RMisuse, 0, <<>>)
   /\ UNCHANGED <<req, reqClosed, resp, respClosed, svrDone, svrExit, sst, strl, smu,
                  cst, clast, chdr, ctrl, respMu, reqMu, sendClosed, tmp, probe, got, fst,
                  bud, ncancel, nhdr, ntrl, panicked>>
@@ -312,7 +326,7 @@ StartSendHeader ==
   /\ HRunning /\ bud["h"] > 0 /\ nhdr < MaxHdr
   /\ bud' = [bud EXCEPT !["h"] = @ - 1] /\ nhdr' = nhdr + 1
   /\ Goto("h", "dh1")
-  /\ Ev_HSendHeaderCall(nhdr + 1) /\ NoViol
+  /\ Ev_HSendHeaderCall(nhdr + 1) /\ NoViol /\ Emit("HSendHeaderCall", nhdr + 1, RNil, 0, <<>>)
   /\ UNCHANGED <<req, reqClosed, resp, respClosed, svrDone, svrExit, sst, shdr, strl, smu,
                  cst, clast, chdr, ctrl, respMu, reqMu, sendClosed, tmp, probe, got, fst,
                  ncancel, ntrl, panicked>>
@@ -321,9 +335,9 @@ SendHeaderLock ==
   /\ pc["h"] = "dh1" /\ smu = ""
   /\ IF sst # "H"
        THEN /\ Goto("h", "idle") /\ UNCHANGED <<smu, shdr>>
-            /\ Ev_HSendHeaderRet(nhdr, FALSE) /\ Viol(Chk_HSendHeaderRet(nhdr, FALSE))
+            /\ Ev_HSendHeaderRet(nhdr, FALSE) /\ Viol(Chk_HSendHeaderRet(nhdr, FALSE)) /\ Emit("HSendHeaderRet", nhdr, RMisuse, 0, <<>>)
        ELSE /\ Goto("h", "dh2") /\ smu' = "h" /\ shdr' = Append(shdr, nhdr)
-            /\ UNCHANGED vars /\ NoViol
+            /\ UNCHANGED vars /\ NoViol /\ Quiet
   /\ UNCHANGED <<req, reqClosed, resp, respClosed, svrDone, svrExit, sst, strl,
                  cst, clast, chdr, ctrl, respMu, reqMu, sendClosed, tmp, probe, got, fst,
                  bud, ncancel, nhdr, ntrl, panicked>>
@@ -336,7 +350,7 @@ SendHeaderRet ==
   /\ LET ok == ~SDone IN
        /\ shdr' = IF ok THEN <<>> ELSE shdr
        /\ sst' = IF ok THEN "M" ELSE sst
-       /\ Ev_HSendHeaderRet(nhdr, ok) /\ Viol(Chk_HSendHeaderRet(nhdr, ok))
+       /\ Ev_HSendHeaderRet(nhdr, ok) /\ Viol(Chk_HSendHeaderRet(nhdr, ok)) /\ Emit("HSendHeaderRet", nhdr, IF ok THEN RNil ELSE RMisuse, 0, <<>>)
   /\ UNCHANGED <<req, reqClosed, resp, respClosed, svrDone, svrExit, strl,
                  cst, clast, chdr, ctrl, respMu, reqMu, sendClosed, tmp, probe, got, fst,
                  bud, ncancel, nhdr, ntrl, panicked>>
@@ -346,7 +360,7 @@ SetTrailerDo ==
   /\ bud' = [bud EXCEPT !["h"] = @ - 1] /\ ntrl' = ntrl + 1
   /\ LET ok == sst # "C" IN
        /\ strl' = IF ok THEN Append(strl, ntrl + 1) ELSE strl
-       /\ Ev_HSetTrailerRet(ntrl + 1, ok) /\ Viol(Chk_HSetTrailerRet(ntrl + 1, ok))
+       /\ Ev_HSetTrailerRet(ntrl + 1, ok) /\ Viol(Chk_HSetTrailerRet(ntrl + 1, ok)) /\ Emit("HSetTrailerRet", ntrl + 1, IF ok THEN RNil ELSE RMisuse, 0, <<>>)
   /\ UNCHANGED <<req, reqClosed, resp, respClosed, svrDone, svrExit, sst, shdr, smu,
                  cst, clast, chdr, ctrl, respMu, reqMu, sendClosed, pc, tmp, probe, got, fst,
                  ncancel, nhdr, panicked>>
@@ -357,7 +371,7 @@ HReturnDo(s) ==
   /\ Goto("h", "f1")
   /\ tmp' = [tmp EXCEPT !["h"] = E(s)]
   /\ svrDone' = TRUE                          \* s.onDone()
-  /\ Ev_HReturn(StRec(s), 0) /\ NoViol
+  /\ Ev_HReturn(StRec(s), 0) /\ NoViol /\ Emit("HReturn", s, RNil, 0, <<>>)
   /\ UNCHANGED <<req, reqClosed, resp, respClosed, svrExit, sst, shdr, strl, smu,
                  cst, clast, chdr, ctrl, respMu, reqMu, sendClosed, probe, got, fst,
                  bud, ncancel, nhdr, ntrl, panicked>>
@@ -367,7 +381,7 @@ FinLock ==
   /\ smu' = "h"
   /\ Goto("h", IF sst = "H" /\ shdr # <<>> THEN "f2" ELSE IF strl # <<>> THEN "f3"
                ELSE IF tmp["h"].v # 0 THEN "f4" ELSE "f5")
-  /\ UNCHANGED vars /\ NoViol
+  /\ UNCHANGED vars /\ NoViol /\ Quiet
   /\ UNCHANGED <<req, reqClosed, resp, respClosed, svrDone, svrExit, sst, shdr, strl,
                  cst, clast, chdr, ctrl, respMu, reqMu, sendClosed, tmp, probe, got, fst,
                  bud, ncancel, nhdr, ntrl, panicked>>
@@ -380,7 +394,7 @@ FinWrite(from, f, to) ==
         /\ panicked' = (panicked \/ respClosed)
      \/ /\ SDone /\ UNCHANGED <<resp, panicked>>
   /\ Goto("h", to)
-  /\ UNCHANGED vars /\ NoViol
+  /\ UNCHANGED vars /\ NoViol /\ Quiet
   /\ UNCHANGED <<req, reqClosed, respClosed, svrDone, svrExit, sst, shdr, strl, smu,
                  cst, clast, chdr, ctrl, respMu, reqMu, sendClosed, tmp, probe, got, fst,
                  bud, ncancel, nhdr, ntrl>>
@@ -396,7 +410,7 @@ FinClose ==
   /\ sst' = "C" /\ respClosed' = TRUE /\ panicked' = (panicked \/ respClosed)
   /\ smu' = "" /\ svrExit' = TRUE
   /\ tmp' = [tmp EXCEPT !["h"] = NoFrame]
-  /\ UNCHANGED vars /\ NoViol
+  /\ UNCHANGED vars /\ NoViol /\ Quiet
   /\ UNCHANGED <<req, reqClosed, resp, svrDone, shdr, strl,
                  cst, clast, chdr, ctrl, respMu, reqMu, sendClosed, probe, got, fst,
                  bud, ncancel, nhdr, ntrl>>
@@ -408,7 +422,7 @@ StartHeader ==
   /\ pc["cr"] = "idle" /\ bud["cr"] > 0
   /\ bud' = [bud EXCEPT !["cr"] = @ - 1]
   /\ Goto("cr", "ch1")
-  /\ Ev_CHeaderCall /\ NoViol
+  /\ Ev_CHeaderCall /\ NoViol /\ Emit("CHeaderCall", 0, RNil, 0, <<>>)
   /\ UNCHANGED <<req, reqClosed, resp, respClosed, svrDone, svrExit, sst, shdr, strl, smu,
                  cst, clast, chdr, ctrl, respMu, reqMu, sendClosed, tmp, probe, got, fst,
                  ncancel, nhdr, ntrl, panicked>>
@@ -417,8 +431,8 @@ HeaderLock ==
   /\ pc["cr"] = "ch1" /\ respMu = ""
   /\ IF cst # "H"
        THEN /\ Goto("cr", "idle") /\ UNCHANGED respMu
-            /\ UNCHANGED vars /\ Viol(Chk_CHeaderRet(RNil, chdr))
-       ELSE /\ Goto("cr", "ch2") /\ respMu' = "cr" /\ UNCHANGED vars /\ NoViol
+            /\ UNCHANGED vars /\ Viol(Chk_CHeaderRet(RNil, chdr)) /\ Emit("CHeaderRet", 0, RNil, 0, chdr)
+       ELSE /\ Goto("cr", "ch2") /\ respMu' = "cr" /\ UNCHANGED vars /\ NoViol /\ Quiet
   /\ UNCHANGED <<req, reqClosed, resp, respClosed, svrDone, svrExit, sst, shdr, strl, smu,
                  cst, clast, chdr, ctrl, reqMu, sendClosed, tmp, probe, got, fst,
                  bud, ncancel, nhdr, ntrl, panicked>>
@@ -438,7 +452,7 @@ RespSelect(from, to, onctx) ==
 
 HeaderSelect ==
   /\ RespSelect("ch2", "ch3", "ch3")
-  /\ UNCHANGED vars /\ NoViol
+  /\ UNCHANGED vars /\ NoViol /\ Quiet
   /\ UNCHANGED <<req, reqClosed, respClosed, svrDone, svrExit, sst, shdr, strl, smu,
                  cst, clast, chdr, ctrl, respMu, reqMu, sendClosed, probe, got, fst,
                  bud, ncancel, nhdr, ntrl, panicked>>
@@ -450,13 +464,13 @@ HeaderCheck ==
   /\ LET f == tmp["cr"] IN
      IF CDone \/ f.t = "N"
        THEN /\ UNCHANGED <<cst, clast, chdr, ctrl>>
-            /\ UNCHANGED vars /\ Viol(Chk_CHeaderRet(RCtx(TRUE), <<>>))
+            /\ UNCHANGED vars /\ Viol(Chk_CHeaderRet(RCtx(TRUE), <<>>)) /\ Emit("CHeaderRet", 0, RCtx(TRUE), 0, <<>>)
        ELSE /\ cst' = IF f.t \in {"X", "E"} THEN "C" ELSE "M"
             /\ chdr' = IF f.t = "H" THEN f.w ELSE chdr
             /\ ctrl' = IF f.t = "T" THEN f.w ELSE ctrl
             /\ clast' = IF f.t \in {"E", "D"} THEN f ELSE clast
             /\ UNCHANGED vars
-            /\ Viol(Chk_CHeaderRet(RNil, IF f.t = "H" THEN f.w ELSE chdr))
+            /\ Viol(Chk_CHeaderRet(RNil, IF f.t = "H" THEN f.w ELSE chdr)) /\ Emit("CHeaderRet", 0, RNil, 0, IF f.t = "H" THEN f.w ELSE chdr)
   /\ UNCHANGED <<req, reqClosed, resp, respClosed, svrDone, svrExit, sst, shdr, strl, smu,
                  reqMu, sendClosed, probe, got, fst,
                  bud, ncancel, nhdr, ntrl, panicked>>
@@ -465,7 +479,7 @@ HeaderCheck ==
 TrailerDo ==
   /\ pc["cr"] = "idle" /\ bud["cr"] > 0 /\ respMu = ""
   /\ bud' = [bud EXCEPT !["cr"] = @ - 1]
-  /\ UNCHANGED vars /\ Viol(Chk_CTrailerRet(ctrl))
+  /\ UNCHANGED vars /\ Viol(Chk_CTrailerRet(ctrl)) /\ Emit("CTrailerRet", 0, RNil, 0, ctrl)
   /\ UNCHANGED <<req, reqClosed, resp, respClosed, svrDone, svrExit, sst, shdr, strl, smu,
                  cst, clast, chdr, ctrl, respMu, reqMu, sendClosed, pc, tmp, probe, got, fst,
                  ncancel, nhdr, ntrl, panicked>>
@@ -475,7 +489,7 @@ StartRecv ==
   /\ pc["cr"] = "idle" /\ bud["cr"] > 0
   /\ bud' = [bud EXCEPT !["cr"] = @ - 1]
   /\ Goto("cr", "r1")
-  /\ Ev_CRecvCall /\ NoViol
+  /\ Ev_CRecvCall /\ NoViol /\ Emit("CRecvCall", 0, RNil, 0, <<>>)
   /\ UNCHANGED <<req, reqClosed, resp, respClosed, svrDone, svrExit, sst, shdr, strl, smu,
                  cst, clast, chdr, ctrl, respMu, reqMu, sendClosed, tmp, probe, got, fst,
                  ncancel, nhdr, ntrl, panicked>>
@@ -484,7 +498,7 @@ RecvLock ==
   /\ pc["cr"] = "r1" /\ respMu = ""
   /\ respMu' = "cr" /\ probe' = FALSE /\ got' = 0
   /\ Goto("cr", "r2")
-  /\ UNCHANGED vars /\ NoViol
+  /\ UNCHANGED vars /\ NoViol /\ Quiet
   /\ UNCHANGED <<req, reqClosed, resp, respClosed, svrDone, svrExit, sst, shdr, strl, smu,
                  cst, clast, chdr, ctrl, reqMu, sendClosed, tmp, fst,
                  bud, ncancel, nhdr, ntrl, panicked>>
@@ -492,7 +506,7 @@ RecvLock ==
 \* the operation returns result r (carrying message m when nil)
 RecvReturn(r, m) ==
   /\ Goto("cr", "idle") /\ respMu' = ""
-  /\ Ev_CRecvRet(r, m) /\ Viol(Chk_CRecvRet(r, m))
+  /\ Ev_CRecvRet(r, m) /\ Viol(Chk_CRecvRet(r, m)) /\ Emit("CRecvRet", 0, r, m, <<>>)
 
 \* outcome of one recvMsgLocked: a data frame k was copied out
 \*  - stream method, or already inside ensureNoMoreLocked: see below
@@ -506,7 +520,7 @@ Delivered(k) ==
   ELSE \* lastMessage: ensureNoMoreLocked -> recvMsgLocked(copy, false)
        /\ probe' = TRUE /\ got' = k /\ clast' = NoFrame
        /\ Goto("cr", "r2") /\ UNCHANGED <<respMu, cst>>
-       /\ UNCHANGED vars /\ NoViol
+       /\ UNCHANGED vars /\ NoViol /\ Quiet
 
 \* outcome of one recvMsgLocked: error r.  Inside ensureNoMoreLocked only
 \* io.EOF means "no more messages" (the first message is then a success);
@@ -528,7 +542,7 @@ RecvPeeked ==
 RecvSelect ==
   /\ pc["cr"] \in {"r2", "r3"} /\ clast.t = "N"
   /\ RespSelect(pc["cr"], "r4", "r4")
-  /\ UNCHANGED vars /\ NoViol
+  /\ UNCHANGED vars /\ NoViol /\ Quiet
   /\ UNCHANGED <<req, reqClosed, respClosed, svrDone, svrExit, sst, shdr, strl, smu,
                  cst, clast, chdr, ctrl, respMu, reqMu, sendClosed, probe, got, fst,
                  bud, ncancel, nhdr, ntrl, panicked>>
@@ -543,10 +557,10 @@ RecvCheck ==
           /\ cst' = "C" /\ Failed(REof) /\ UNCHANGED <<clast, chdr, ctrl, probe, got>>
      ELSE IF f.t = "H" THEN
           /\ cst' = "M" /\ chdr' = f.w /\ Goto("cr", "r3")
-          /\ UNCHANGED <<clast, ctrl, probe, got, respMu>> /\ UNCHANGED vars /\ NoViol
+          /\ UNCHANGED <<clast, ctrl, probe, got, respMu>> /\ UNCHANGED vars /\ NoViol /\ Quiet
      ELSE IF f.t = "T" THEN
           /\ ctrl' = f.w /\ Goto("cr", "r3")
-          /\ UNCHANGED <<cst, clast, chdr, probe, got, respMu>> /\ UNCHANGED vars /\ NoViol
+          /\ UNCHANGED <<cst, clast, chdr, probe, got, respMu>> /\ UNCHANGED vars /\ NoViol /\ Quiet
      ELSE IF f.t = "E" THEN
           /\ cst' = "C" /\ clast' = f /\ UNCHANGED <<chdr, ctrl, probe, got>>
           /\ Failed(RSt(f.v))
@@ -559,7 +573,7 @@ RecvCheck ==
 Cancel(why) ==
   /\ cctx = "live" /\ ncancel < MaxCancel
   /\ ncancel' = ncancel + 1
-  /\ Ev_Cancel(why) /\ NoViol
+  /\ Ev_Cancel(why) /\ NoViol /\ Emit("Cancel", IF why = "cancel" THEN 1 ELSE 4, RNil, 0, <<>>)
   /\ UNCHANGED <<req, reqClosed, resp, respClosed, svrDone, svrExit, sst, shdr, strl, smu,
                  cst, clast, chdr, ctrl, respMu, reqMu, sendClosed, pc, tmp, probe, got, fst,
                  bud, nhdr, ntrl, panicked>>
